@@ -529,6 +529,12 @@ def run(ctx):
     if ids:
         ctx.sample({'group': 'trees', 'tree': tree_json(trees[k]), 'observed_id': ids[k],
                 'equal_to': [tree_json(trees[j]) for j in rows[k][:4]], 'n_equal': len(rows[k])})
+    # ---- probe (recorded in the evidence notes, not judged): params dicts that are equal but were filled in a
+    # different key order render differently in description(), so the graphs compare unequal
+    p1 = OptGraph(OptNode({'name': 'q', 'params': {'a': 1, 'b': 2}}))
+    p2 = OptGraph(OptNode({'name': 'q', 'params': {'b': 2, 'a': 1}}))
+    ctx.notes.append('probe params-key-order: name q, params {a:1,b:2} vs {b:2,a:1} (equal dicts): == gives %s, ids %r / %r'
+                     % (p1 == p2, p1.descriptive_id, p2.descriptive_id))
     # ---- (b)
     run_dags(ctx, ctx.budget(1700, 36000))
     ctx.set_exhaustive('dags', False)
